@@ -256,3 +256,23 @@ Lemma hom2_wrong_norm_not_invariant :
 Proof.
   cbv zeta. unfold hom2_term, scale_term2, cscale, cmul, cnorm2, sum_list. cbn [map fold_right fst snd]. lra.
 Qed.
+
+(* ---- the normalised AMPLITUDE (JointSpectrum::jsa_normalized) *)
+Lemma center_jsa_scale a b so :
+  0 <= a -> 0 <= jsi_normalization (omega_s0 so) (omega_i0 so) so ->
+  center_jsa (scale_setup a b so) = sqrt a * Rabs b * center_jsa so.
+Proof.
+  intros Ha Hn. unfold center_jsa. cbn [scale_setup omega_s0 omega_i0].
+  rewrite jsa_raw_scale, jsi_normalization_linear. rewrite sqrt_scale by assumption. ring.
+Qed.
+
+Lemma jsa_normalized_invariant a b ws wi s so :
+  0 < a -> b <> 0 -> 0 <= jsi_normalization ws wi s -> 0 <= jsi_normalization (omega_s0 so) (omega_i0 so) so -> center_jsa so <> 0 ->
+  spectrum_jsa_normalized ws wi (scale_setup a b s) (center_jsa (scale_setup a b so))
+  = spectrum_jsa_normalized ws wi s (center_jsa so).
+Proof.
+  intros Ha Hb Hn Hno Hc. unfold spectrum_jsa_normalized.
+  rewrite spectrum_jsa_scale, center_jsa_scale by lra. unfold cscale. cbn [fst snd].
+  assert (0 < sqrt a) by (apply sqrt_lt_R0; assumption). assert (0 < Rabs b) by (apply Rabs_pos_lt; assumption).
+  f_equal; field; repeat split; try assumption; lra.
+Qed.
